@@ -20,6 +20,7 @@ import (
 	"regexp"
 	"strconv"
 	"strings"
+	"sync"
 	"time"
 	"unicode"
 	"unicode/utf8"
@@ -624,6 +625,10 @@ func NumberFormat(fn parser.Function, args []value.Primary, _ *option.Flags) (va
 	return value.NewString(s), nil
 }
 
+// randMutex serializes the use of the shared random number generator: rows are evaluated by several goroutines
+// and *rand.Rand is not safe for concurrent use.
+var randMutex sync.Mutex
+
 func Rand(fn parser.Function, args []value.Primary, _ *option.Flags) (value.Primary, error) {
 	if 0 < len(args) && len(args) != 2 {
 		return nil, NewFunctionArgumentLengthError(fn, fn.Name, []int{0, 2})
@@ -632,7 +637,10 @@ func Rand(fn parser.Function, args []value.Primary, _ *option.Flags) (value.Prim
 	r := option.GetRand()
 
 	if len(args) == 0 {
-		return value.NewFloat(r.Float64()), nil
+		randMutex.Lock()
+		f := r.Float64()
+		randMutex.Unlock()
+		return value.NewFloat(f), nil
 	}
 
 	p1 := value.ToInteger(args[0])
@@ -656,7 +664,10 @@ func Rand(fn parser.Function, args []value.Primary, _ *option.Flags) (value.Prim
 	if delta < 1 {
 		return nil, NewFunctionInvalidArgumentError(fn, fn.Name, "the range of the arguments is too large")
 	}
-	return value.NewInteger(r.Int63n(delta) + low), nil
+	randMutex.Lock()
+	n := r.Int63n(delta)
+	randMutex.Unlock()
+	return value.NewInteger(n + low), nil
 }
 
 func execStrings1Arg(fn parser.Function, args []value.Primary, stringsf func(string) string) (value.Primary, error) {
